@@ -324,6 +324,11 @@ class VariableRangeAnalysis(IRAnalysis):
         if isinstance(lhs, IRVariable) and isinstance(rhs, IRLiteral):
             current = state.get(lhs, ValueRange.top())
             bound = wrap256(rhs.value, signed=signed)
+            if signed and not current.is_top and not current.is_empty and current.hi > SIGNED_MAX:
+                # the range is in unsigned form: words above SIGNED_MAX are
+                # negative for a signed comparison, so the raw bounds do not
+                # order the values in the signed sense
+                return state
             # For unsigned comparisons with ranges that could include negatives
             if not signed and (current.is_top or current.lo < 0):
                 # Check if this is a "safe" narrowing case
@@ -343,6 +348,9 @@ class VariableRangeAnalysis(IRAnalysis):
         elif isinstance(lhs, IRLiteral) and isinstance(rhs, IRVariable):
             current = state.get(rhs, ValueRange.top())
             bound = wrap256(lhs.value, signed=signed)
+            if signed and not current.is_top and not current.is_empty and current.hi > SIGNED_MAX:
+                # (see above)
+                return state
             # Same logic but with left_side=False (bound on left of comparison)
             # lt: bound < var, so var > bound => gt semantics for var
             # gt: bound > var, so var < bound => lt semantics for var
